@@ -67,8 +67,8 @@ func runC18(args []string) error {
 		}
 		v := tsVariants[ts][r.Intn(len(tsVariants[ts]))]
 		// alternate small (< 32) and larger frames: geometry-dependent parameter handling must be exercised both ways
-		dim := 12 + r.Intn(18)
-		if len(fx)%2 == 1 {
+		dim := 6 + r.Intn(11) // 6..16: below every "image too small for the requested levels / block size" threshold
+		if (len(fx)+int(*seed))%2 == 1 {
 			dim = 40 + r.Intn(30)
 		}
 		fi := frameInfo(dim, dim+r.Intn(5), v.ba, v.bs, v.spp, v.pixrep, 0)
